@@ -35,16 +35,21 @@ def _open(fid):
     return (not _NOEXCL) and is_open(fid)
 
 
-RULE = ("Hypothesis strategies. xsec: one of the 4 profile classes with log-uniform pulse energy/length, widths, waist "
-        "(3e-5..1e-2 m so that Rayleigh ranges from 0.5 mm to km occur), wavelength, polarisation, radius/length and 2 axial "
-        "positions in [-2, 5] m; the energy density is integrated numerically (self-scaled trapezoid over +-9 measured "
-        "half-widths; Gauss-Legendre x trapezoid over the disc for the uniform profile; 3-D for the trivariate pulse). "
-        "segments: radius and length drawn by class (length < 2r; 2r < length < 4r; length/(2r) an integer 2..40; "
-        "length/(2r) = k + f with k in 2..40, f in [.02,.98]) through generate_segmented_cylinder, "
-        "profile.generate_geometry() and a Laser node. spectrum: ConstantSpectrum / GaussianSpectrum with range, bins "
-        "(1..200), mean, stddev by class (line inside / cut / outside the range). hist: a state machine over every "
-        "public setter of the 6 classes (20-30 steps), every step followed by a full observation that is compared with "
-        "a freshly constructed object. Non-trivial: xsec - every case (distinct parameter set actually integrated); "
+RULE = ("Hypothesis strategies. Profile objects are constructed with keyword arguments of which none / a random subset / "
+        "all are OMITTED (the documented default then is the parameter value); every constructor and setter value is "
+        "drawn from a log-uniform/uniform range 3 times out of 4 and otherwise is EXACTLY a constructor default or an "
+        "internal preset of an __init__ (1.0, 0.01, 0.1, 1e-3, 1/c, 0.05, 1e3, (0,1,0) ...). xsec: one of the 4 profile "
+        "classes (waist 3e-5..1e-2 m so that Rayleigh ranges from 0.5 mm to km occur) and 2 axial positions in [-2, 5] m; "
+        "the energy density is integrated numerically (self-scaled trapezoid over +-9 measured half-widths; "
+        "Gauss-Legendre x trapezoid over the disc for the uniform profile; 3-D for the trivariate pulse). segments: "
+        "length/(2 radius) drawn by class ([0,1), [1,2), [2,3), [3,4), exactly 1, 2, 3, an integer 4..40, k+f with k in "
+        "4..40) with the radius free, = 0.05 or the length = 1.0 (or omitted), for each profile class, through "
+        "generate_segmented_cylinder, profile.generate_geometry() and a Laser node. spectrum: ConstantSpectrum / "
+        "GaussianSpectrum (positional or keyword call) with range, bins (1..200), mean, stddev by class (line inside / "
+        "cut / outside the range). hist: a state machine over every public setter of the 6 classes (20-30 steps); the "
+        "object is fully observed (energy density / binned spectrum / geometry / accessors) before the first setter "
+        "and immediately after EVERY setter, before the next one, and compared with an object freshly constructed "
+        "with all arguments explicit. Non-trivial: xsec - every case (distinct parameter set actually integrated); "
         "segments - length < 2r or a non-integer length/(2r) with >= 2 segments; spectrum - a Gaussian line cut by the "
         "range, or >= 2 bins with the line inside, or a constant spectrum with >= 2 bins; hist - >= 2 setter steps, "
         "made after the object was already observed, that each changed the observable state.")
@@ -58,6 +63,7 @@ ASSUMPTIONS = [
     "'reported parameter' = the value handed to the constructor/setter (a fresh object built with max_wavelength=M "
     "must report M from every accessor), property getters compared for exact equality",
     "only valid parameter values are generated (rejected setters are outside the statement)",
+    "the default values in the constructor signatures of profile.pyx are the documented defaults (DEFAULTS table)",
 ]
 _EPS = float(np.finfo(float).eps)
 TOLERANCES = {
@@ -70,11 +76,19 @@ TOLERANCES = {
     "spectrum.sum": "1e-9 (inside: mass beyond 9 sigma is 2e-19; bins*eps rounding)",
     "hist": "element-wise rtol 1e-9 (same arithmetic on the same parameters in both objects); reported parameters exact",
 }
-REQUIRED_LABELS = ["xsec:uniform", "xsec:bivariate", "xsec:trivariate", "xsec:gaussbeam", "xsec:gaussbeam:far",
-                   "segments:short", "segments:single", "segments:int", "segments:nonint",
-                   "spectrum:const", "spectrum:gauss:inside", "spectrum:gauss:cut", "spectrum:gauss:outside",
-                   "hist:kind:uniform", "hist:kind:bivariate", "hist:kind:trivariate", "hist:kind:gaussbeam",
-                   "hist:kind:const_spectrum", "hist:kind:gauss_spectrum"]
+_KINDS = ["uniform", "bivariate", "trivariate", "gaussbeam"]
+REQUIRED_LABELS = (["xsec:uniform", "xsec:bivariate", "xsec:trivariate", "xsec:gaussbeam", "xsec:gaussbeam:far",
+                    "xsec:omit:none", "xsec:omit:some", "xsec:omit:all", "xsec:special-value",
+                    "segments:short", "segments:single", "segments:int", "segments:nonint",
+                    "segments:omit:some", "segments:omit:all",
+                    "spectrum:const", "spectrum:gauss:inside", "spectrum:gauss:cut", "spectrum:gauss:outside",
+                    "hist:kind:uniform", "hist:kind:bivariate", "hist:kind:trivariate", "hist:kind:gaussbeam",
+                    "hist:kind:const_spectrum", "hist:kind:gauss_spectrum",
+                    "hist:omit:some", "hist:omit:all", "hist:set-special-value"]
+                   # every length/(2r) band and n_segments == 2, per profile class (each case goes through the function,
+                   # profile.generate_geometry() and the Laser node)
+                   + ["segments:%s:%s" % (k, b) for k in _KINDS
+                      for b in ("band0", "band1", "band2", "band3", "int1", "int2", "int3", "n2")])
 
 PROFILES = {"uniform": UniformEnergyDensity, "bivariate": ConstantBivariateGaussian,
             "trivariate": TrivariateGaussian, "gaussbeam": GaussianBeamAxisymmetric}
@@ -87,6 +101,25 @@ PROFILE_KEYS = {
 }
 SPECTRUM_KEYS = {"const_spectrum": ["min_wavelength", "max_wavelength", "bins"],
                  "gauss_spectrum": ["min_wavelength", "max_wavelength", "bins", "mean", "stddev"]}
+# documented constructor defaults (signatures in cherab/core/model/laser/profile.pyx); the spectra have none
+DEFAULTS = {
+    "uniform": {"energy_density": 1.0, "laser_length": 1.0, "laser_radius": 0.05},
+    "bivariate": {"pulse_energy": 1.0, "pulse_length": 1.0, "laser_radius": 0.05, "laser_length": 1.0,
+                  "stddev_x": 0.01, "stddev_y": 0.01},
+    "trivariate": {"pulse_energy": 1.0, "pulse_length": 1.0, "mean_z": 0.0, "laser_length": 1.0, "laser_radius": 0.05,
+                   "stddev_x": 0.01, "stddev_y": 0.01},
+    "gaussbeam": {"pulse_energy": 1.0, "pulse_length": 1.0, "laser_length": 1.0, "laser_radius": 0.05, "waist_z": 0.0,
+                  "stddev_waist": 0.01, "laser_wavelength": 1e3},
+}
+DEFAULT_POL = [0.0, 1.0, 0.0]
+# values equal to a constructor default or to an internal preset of an __init__ (profile classes and the
+# Function3D helpers in math_functions.pyx; _stddev_z = 1 corresponds to pulse_length = 1/c)
+SPECIAL = {
+    "energy_density": [1.0], "pulse_energy": [1.0], "pulse_length": [1.0, 1.0 / SC.c],
+    "stddev_x": [0.01, 0.1, 1.0], "stddev_y": [0.01, 0.1, 1.0], "mean_z": [0.0, 1.0], "waist_z": [0.0],
+    "stddev_waist": [0.01, 0.1, 1e-3], "laser_wavelength": [1e3], "laser_radius": [0.05], "laser_length": [1.0],
+}
+GEOM_CLASSES = ["band0", "band1", "band2", "band3", "int1", "int2", "int3", "int", "nonint"]
 
 
 # ------------------------------------------------------------------------------------------------ strategies
@@ -102,53 +135,82 @@ def _polarization(draw):
     return [x * s for x in v]
 
 
+GENERAL = {
+    "energy_density": lambda: _logu(1e-3, 1e6), "pulse_energy": lambda: _logu(1e-3, 1e2),
+    "pulse_length": lambda: _logu(1e-10, 1e-6), "stddev_x": lambda: _logu(1e-4, 0.1), "stddev_y": lambda: _logu(1e-4, 0.1),
+    "mean_z": lambda: st.floats(-5.0, 5.0), "waist_z": lambda: st.floats(-2.0, 3.0),
+    "stddev_waist": lambda: _logu(3e-5, 1e-2), "laser_wavelength": lambda: _logu(200.0, 11000.0),
+}
+
+
+def _val(name, general=None):
+    """general value 3 times out of 4, else a constructor default / internal preset, exactly."""
+    g = general if general is not None else GENERAL[name]()
+    return st.one_of(g, g, g, st.sampled_from(SPECIAL[name]))
+
+
+def _pol():
+    return st.one_of(_polarization(), _polarization(), _polarization(), st.just(list(DEFAULT_POL)))
+
+
+def _ratio(cls):
+    """laser_length / (2 laser_radius) by class."""
+    if cls == "band0":
+        return st.floats(0.05, 0.999)
+    if cls.startswith("band"):
+        return st.floats(0.001, 0.999).map(lambda f, k=int(cls[4:]): k + f)
+    if cls == "int":
+        return st.integers(4, 40).map(float)
+    if cls.startswith("int"):
+        return st.just(float(cls[3:]))
+    return st.builds(lambda k, f: k + f, st.integers(4, 40), st.floats(0.02, 0.98))
+
+
 @st.composite
-def _radius_length(draw, cls=None):
-    cls = cls or draw(st.sampled_from(["short", "single", "int", "nonint", "nonint"]))
-    r = draw(_logu(1e-3, 0.2))
-    if cls == "short":
-        ratio = draw(st.floats(0.02, 0.999))
-    elif cls == "single":
-        ratio = draw(st.floats(1.001, 1.999))
-    elif cls == "int":
-        ratio = float(draw(st.integers(2, 40)))
+def profile_case(draw, kind, geom_cls=None, modes=("none", "none", "some", "some", "all")):
+    """-> (p, omit): p holds the effective value of every parameter, `omit` names the constructor keyword arguments
+    that are left out (their value in p is the documented default)."""
+    keys = PROFILE_KEYS[kind] + ["polarization"]
+    mode = draw(st.sampled_from(list(modes)))
+    omit = [] if mode == "none" else list(keys) if mode == "all" else [k for k in keys if draw(st.booleans())]
+    if geom_cls is not None and "laser_radius" in omit and "laser_length" in omit:
+        omit.remove("laser_length")            # a forced length/(2r) class needs one free parameter
+    ro, lo = "laser_radius" in omit, "laser_length" in omit
+    if ro and lo:
+        r, length = 0.05, 1.0
     else:
-        ratio = draw(st.integers(2, 40)) + draw(st.floats(0.02, 0.98))
-    return r, 2.0 * r * ratio
-
-
-@st.composite
-def profile_params(draw, kind, geom_cls=None):
-    r, length = draw(_radius_length(geom_cls))
-    p = {"laser_radius": r, "laser_length": length, "polarization": draw(_polarization())}
-    if kind == "uniform":
-        p["energy_density"] = draw(_logu(1e-3, 1e6))
-        return p
-    p["pulse_energy"] = draw(_logu(1e-3, 1e2))
-    p["pulse_length"] = draw(_logu(1e-10, 1e-6))
-    if kind in ("bivariate", "trivariate"):
-        p["stddev_x"] = draw(_logu(1e-4, 0.1))
-        p["stddev_y"] = draw(_logu(1e-4, 0.1))
-    if kind == "trivariate":
-        p["mean_z"] = draw(st.floats(-5.0, 5.0))
-    if kind == "gaussbeam":
-        p["stddev_waist"] = draw(_logu(3e-5, 1e-2))
-        p["waist_z"] = draw(st.floats(-2.0, 3.0))
-        p["laser_wavelength"] = draw(_logu(200.0, 11000.0))
-    return p
+        ratio = draw(_ratio(geom_cls or draw(st.sampled_from(GEOM_CLASSES))))
+        anchor = "r" if ro else "L" if lo else draw(st.sampled_from(["free", "free", "free", "r", "L"]))
+        if anchor == "r":
+            r = 0.05
+            length = 2.0 * r * ratio
+        elif anchor == "L":
+            length = 1.0
+            r = length / (2.0 * ratio)
+        else:
+            r = draw(_logu(1e-3, 0.2))
+            length = 2.0 * r * ratio
+    p = {"laser_radius": r, "laser_length": length,
+         "polarization": list(DEFAULT_POL) if "polarization" in omit else draw(_pol())}
+    for k in PROFILE_KEYS[kind]:
+        if k not in p:
+            p[k] = DEFAULTS[kind][k] if k in omit else draw(_val(k))
+    return p, omit
 
 
 @st.composite
 def xsec_strategy(draw):
     kind = draw(st.sampled_from(["uniform", "bivariate", "bivariate", "trivariate", "gaussbeam", "gaussbeam"]))
-    return {"kind": kind, "p": draw(profile_params(kind)), "z": [draw(st.floats(-2.0, 5.0)) for _ in range(2)]}
+    p, omit = draw(profile_case(kind))
+    return {"kind": kind, "p": p, "omit": omit, "z": [draw(st.floats(-2.0, 5.0)) for _ in range(2)]}
 
 
 @st.composite
 def segments_strategy(draw):
     kind = draw(st.sampled_from(sorted(PROFILES)))
-    cls = draw(st.sampled_from(["short", "single", "int", "nonint", "nonint", "nonint"]))
-    return {"kind": kind, "cls": cls, "p": draw(profile_params(kind, cls))}
+    cls = draw(st.sampled_from(GEOM_CLASSES + ["default"]))
+    p, omit = draw(profile_case(kind, cls) if cls != "default" else profile_case(kind, None, ("some", "all", "all")))
+    return {"kind": kind, "cls": cls, "p": p, "omit": omit}
 
 
 def const_halved(mn, mx, bins):
@@ -192,23 +254,43 @@ def spectrum_params(draw, kind, cls=None):
 def spectrum_strategy(draw):
     kind = draw(st.sampled_from(["const_spectrum", "gauss_spectrum", "gauss_spectrum"]))
     p = draw(spectrum_params(kind))
-    case = {"kind": kind, "p": p, "xs": [draw(st.floats(-0.5, 1.5)) for _ in range(4)], "acc_max": not _open(F_MAX)}
+    case = {"kind": kind, "p": p, "xs": [draw(st.floats(-0.5, 1.5)) for _ in range(4)], "acc_max": not _open(F_MAX),
+            "kw": draw(st.booleans())}
     if kind == "const_spectrum" and _open(F_CS) and any(const_halved(p["min_wavelength"], p["max_wavelength"], p["bins"])):
         case["known_halfbin"] = True      # excluded class: first/last bin and the sum are not compared
     return case
 
 
 # ------------------------------------------------------------------------------------------------ builders
-def build_profile(kind, p):
-    kw = {k: p[k] for k in PROFILE_KEYS[kind]}
-    kw["polarization"] = Vector3D(*p["polarization"])
+def effective(kind, p, omit):
+    """parameters the object must have: the documented default wherever the keyword argument is omitted."""
+    q = dict(p)
+    for k in omit:
+        q[k] = list(DEFAULT_POL) if k == "polarization" else DEFAULTS[kind][k]
+    return q
+
+
+def build_profile(kind, p, omit=()):
+    kw = {k: p[k] for k in PROFILE_KEYS[kind] if k not in omit}
+    if "polarization" not in omit:
+        kw["polarization"] = Vector3D(*p["polarization"])
     return PROFILES[kind](**kw)
 
 
-def build_spectrum(kind, p):
+def build_spectrum(kind, p, kw=False):
+    if kw:
+        a = {k: (int(p[k]) if k == "bins" else p[k]) for k in SPECTRUM_KEYS[kind]}
+        return SPECTRA[kind](**a)
     if kind == "const_spectrum":
         return ConstantSpectrum(p["min_wavelength"], p["max_wavelength"], int(p["bins"]))
     return GaussianSpectrum(p["min_wavelength"], p["max_wavelength"], int(p["bins"]), p["mean"], p["stddev"])
+
+
+def omit_labels(ctx, kind, p, omit):
+    keys = PROFILE_KEYS[kind] + ["polarization"]
+    ctx.label("omit:none" if not omit else "omit:all" if len(omit) == len(keys) else "omit:some")
+    if any(k not in omit and p[k] in SPECIAL[k] for k in PROFILE_KEYS[kind]):
+        ctx.label("special-value")
 
 
 def unit(v):
@@ -242,11 +324,14 @@ def half_width(g, g0):
 
 
 def run_xsec(case, ctx):
-    kind, p = case["kind"], case["p"]
+    kind, omit = case["kind"], case.get("omit", [])
+    p = effective(kind, case["p"], omit)
     ctx.label(kind)
+    omit_labels(ctx, kind, p, omit)
     ctx.nt()
     with ctx.cut("construct"):
-        prof = build_profile(kind, p)
+        prof = build_profile(kind, p, omit)
+    check_reported(ctx, prof, kind, p, True, "reported")     # incl. the documented default of every omitted argument
     f = prof.get_energy_density
     pol = unit(p["polarization"])
     for z in case["z"]:
@@ -345,13 +430,15 @@ def check_tiling(ctx, segs, r, length, what):
 
 
 def run_segments(case, ctx):
-    kind, p = case["kind"], case["p"]
+    kind, omit = case["kind"], case.get("omit", [])
+    p = effective(kind, case["p"], omit)
     r, length = p["laser_radius"], p["laser_length"]
     with ctx.cut("generate_segmented_cylinder"):
         segs = generate_segmented_cylinder(r, length)
     tr = check_tiling(ctx, segs, r, length, "function")
     with ctx.cut("construct"):
-        prof = build_profile(kind, p)
+        prof = build_profile(kind, p, omit)
+    check_reported(ctx, prof, kind, p, True, "reported")
     with ctx.cut("generate_geometry"):
         segs2 = prof.generate_geometry()
     check_tiling(ctx, segs2, r, length, "profile:" + kind)
@@ -371,6 +458,15 @@ def run_segments(case, ctx):
     else:
         cls = "nonint"
     ctx.label(cls)
+    k = round(ratio)
+    if k >= 1 and abs(ratio - k) <= 1e-12 * k:
+        band = "int%d" % k if k <= 3 else "int4+"
+    else:
+        band = "band%d" % int(ratio) if ratio < 4 else "band4+"
+    ctx.label("%s:%s" % (kind, band))                  # all three paths (function, profile, Laser node) ran above
+    if n == 2:
+        ctx.label("%s:n2" % kind)
+    omit_labels(ctx, kind, p, omit)
     ctx.nt(cls in ("short", "nonint"))
 
 
@@ -411,7 +507,7 @@ def run_spectrum(case, ctx):
     kind, p = case["kind"], case["p"]
     mn, mx, n = p["min_wavelength"], p["max_wavelength"], int(p["bins"])
     with ctx.cut("construct"):
-        sp = build_spectrum(kind, p)
+        sp = build_spectrum(kind, p, case.get("kw", False))
     check_reported(ctx, sp, kind, p, case.get("acc_max", True), "reported")
     with ctx.cut("arrays"):
         wl = np.array(sp.wavelengths, dtype=float)
@@ -465,28 +561,30 @@ def run_spectrum(case, ctx):
 
 # ------------------------------------------------------------------------------------------------ 4. histories
 def _refresh_flag(fid):
-    return st.just(True) if _open(fid) else st.booleans()
+    # the repairing re-assignment is generated only while the finding is open: otherwise the state right after
+    # the setter must already be correct (a cache refreshed one statement too early shows exactly there)
+    return st.just(bool(_open(fid)))
 
 
 def _geom_ratio():
-    return st.one_of(st.floats(0.02, 0.999), st.floats(1.001, 1.999), st.integers(2, 30).map(float),
-                     st.builds(lambda k, f: k + f, st.integers(2, 30), st.floats(0.02, 0.98)))
+    return st.sampled_from(GEOM_CLASSES).flatmap(_ratio)
 
 
 # name -> (kinds, strategy of the JSON argument)
 SETTERS = {
-    "laser_radius": (tuple(PROFILES), lambda: _logu(5e-3, 0.2)),
-    "laser_length": (tuple(PROFILES), lambda: st.one_of(_logu(5e-3, 4.0), _geom_ratio().map(lambda q: -q))),
-    "polarization": (tuple(PROFILES), _polarization),
-    "energy_density": (("uniform",), lambda: _logu(1e-3, 1e6)),
-    "pulse_energy": (("bivariate", "trivariate", "gaussbeam"), lambda: st.tuples(_logu(1e-3, 1e2), _refresh_flag(F_PE))),
-    "pulse_length": (("bivariate", "trivariate", "gaussbeam"), lambda: _logu(1e-10, 1e-6)),
-    "stddev_x": (("bivariate", "trivariate"), lambda: _logu(1e-4, 0.1)),
-    "stddev_y": (("bivariate", "trivariate"), lambda: _logu(1e-4, 0.1)),
-    "mean_z": (("trivariate",), lambda: st.floats(-5.0, 5.0)),
-    "waist_z": (("gaussbeam",), lambda: st.floats(-2.0, 3.0)),
-    "stddev_waist": (("gaussbeam",), lambda: _logu(3e-5, 1e-2)),
-    "laser_wavelength": (("gaussbeam",), lambda: _logu(200.0, 11000.0)),
+    "laser_radius": (tuple(PROFILES), lambda: _val("laser_radius", _logu(5e-3, 0.2))),
+    "laser_length": (tuple(PROFILES), lambda: st.one_of(_logu(5e-3, 4.0), _geom_ratio().map(lambda q: -q),
+                                                        _geom_ratio().map(lambda q: -q), st.just(1.0))),
+    "polarization": (tuple(PROFILES), _pol),
+    "energy_density": (("uniform",), lambda: _val("energy_density")),
+    "pulse_energy": (("bivariate", "trivariate", "gaussbeam"), lambda: st.tuples(_val("pulse_energy"), _refresh_flag(F_PE))),
+    "pulse_length": (("bivariate", "trivariate", "gaussbeam"), lambda: _val("pulse_length")),
+    "stddev_x": (("bivariate", "trivariate"), lambda: _val("stddev_x")),
+    "stddev_y": (("bivariate", "trivariate"), lambda: _val("stddev_y")),
+    "mean_z": (("trivariate",), lambda: _val("mean_z")),
+    "waist_z": (("gaussbeam",), lambda: _val("waist_z")),
+    "stddev_waist": (("gaussbeam",), lambda: _val("stddev_waist")),
+    "laser_wavelength": (("gaussbeam",), lambda: _val("laser_wavelength")),
     "min_wavelength": (tuple(SPECTRA), lambda: _logu(0.02, 150.0)),      # new min = max - arg
     "max_wavelength": (tuple(SPECTRA), lambda: _logu(0.02, 150.0)),      # new max = min + arg
     "bins": (tuple(SPECTRA), lambda: st.one_of(st.integers(1, 5), st.integers(1, 60))),
@@ -498,12 +596,13 @@ SETTERS = {
 @st.composite
 def hist_params(draw):
     kind = draw(st.sampled_from(sorted(PROFILES) + sorted(SPECTRA)))
+    omit = []
     if kind in PROFILES:
-        p = draw(profile_params(kind))
+        p, omit = draw(profile_case(kind))
     else:
         p = draw(spectrum_params(kind))
         p["bins"] = min(p["bins"], 60)
-    return {"kind": kind, "p": p,
+    return {"kind": kind, "p": p, "omit": omit, "kw": draw(st.booleans()),
             "pts": [[draw(st.floats(-2.5, 2.5)), draw(st.floats(-2.5, 2.5)), draw(st.floats(-0.5, 1.5))] for _ in range(3)],
             "xs": [draw(st.floats(-0.5, 1.5)) for _ in range(3)],
             "acc_max": not _open(F_MAX)}
@@ -526,7 +625,9 @@ class Hist:
     def __init__(self, ctx, params):
         self.ctx = ctx
         self.kind = params["kind"]
-        self.p = dict(params["p"])
+        self.omit = list(params.get("omit", [])) if self.kind in PROFILES else []
+        self.kw = bool(params.get("kw", False))
+        self.p = effective(self.kind, params["p"], self.omit) if self.kind in PROFILES else dict(params["p"])
         self.pts = params["pts"]
         self.xs = params["xs"]
         self.acc_max = params.get("acc_max", True)
@@ -534,6 +635,7 @@ class Hist:
         self.laser = self.obj = None
         self.n_set = 0
         self.n_eff = 0
+        self.n_special = 0
         self.names = set()
         self.snap = None
 
@@ -544,11 +646,11 @@ class Hist:
             return
         with self.ctx.cut("construct"):
             if self.is_profile:
-                self.obj = build_profile(self.kind, self.p)
+                self.obj = build_profile(self.kind, self.p, self.omit)     # possibly with omitted keyword arguments
                 self.laser = Laser(parent=World())
                 self.laser.laser_profile = self.obj
             else:
-                self.obj = build_spectrum(self.kind, self.p)
+                self.obj = build_spectrum(self.kind, self.p, self.kw)
         self.invariant()
 
     def close(self):
@@ -618,6 +720,10 @@ class Hist:
     def finish(self):
         self._ensure()
         self.ctx.label("kind:" + self.kind)
+        if self.is_profile:
+            omit_labels(self.ctx, self.kind, self.p, self.omit)
+        if self.n_special:
+            self.ctx.label("set-special-value")
         for n in sorted(self.names):
             self.ctx.label("set:%s.%s" % (self.kind, n))
         self.ctx.nt(self.n_eff >= 2)
@@ -653,6 +759,8 @@ class Hist:
             with ctx.cut("set:" + name):
                 setattr(obj, name, value)
         p[name] = value
+        if name in SPECIAL and value in SPECIAL[name]:
+            self.n_special += 1
         if refresh:
             # user-level workaround generated only while the finding is open: a setter known to rebuild the cache
             with ctx.cut("set:refresh"):
@@ -676,6 +784,6 @@ _install_ops()
 SUBCHECKS = {
     "xsec": Given(xsec_strategy, run_xsec, quick=2000, thorough=30000),
     "segments": Given(segments_strategy, run_segments, quick=2000, thorough=30000),
-    "spectrum": Given(spectrum_strategy, run_spectrum, quick=8000, thorough=120000),
-    "hist": Machine(Hist, quick=800, thorough=10000, steps=(20, 30), params=hist_params),
+    "spectrum": Given(spectrum_strategy, run_spectrum, quick=6000, thorough=120000),
+    "hist": Machine(Hist, quick=640, thorough=10000, steps=(20, 30), params=hist_params),
 }
